@@ -863,7 +863,7 @@ pub fn run_live_family(ctx: &Ctx, report: &mut Report, which: &'static str) {
     let plan = match (which, ctx.quick()) {
         ("C04", true) => vec![(2u8, 3usize), (3, 2)],
         ("C04", false) => vec![(2, 4), (3, 3)],
-        ("C15", true) => vec![(2, 2)],
+        ("C15", true) => vec![(2, 2), (3, 1)],
         ("C11", true) => vec![(2, 3)],
         ("C11", false) => vec![(2, 4), (3, 3)],
         ("C15", false) => vec![(2, 3), (3, 2)],
@@ -903,6 +903,15 @@ pub fn run_live_family(ctx: &Ctx, report: &mut Report, which: &'static str) {
         let results: anyhow::Result<Vec<(u64, Vec<LEv>, bool, Bad, bool, String)>> = rt.block_on(async {
             let mut ns = nodes(n as usize, which == "C04").await?;
             let bystander = if which == "C04" { Some(setup_bystander(&ns).await.map_err(|e| anyhow::anyhow!("bystander document: {e}"))?) } else { None };
+            // C12: a subscriber of a *second* document of node 0 lives through all histories of the
+            // worker; after every history (which ends with its own document being dropped) a
+            // write to the second document must still reach it
+            let mut other_sub = None;
+            if which == "C12" {
+                let doc = ns[0].docs.api().import_namespace(Capability::Write(secret(0xb758, 9))).await?;
+                let (log, task) = event_log(&doc).await.map_err(|e| anyhow::anyhow!(e))?;
+                other_sub = Some((doc, log, task, 0u64));
+            }
             let mut out = vec![];
             for (ord, hist, dec, which) in cases {
                 let which = which.as_str();
@@ -915,6 +924,26 @@ pub fn run_live_family(ctx: &Ctx, report: &mut Report, which: &'static str) {
                     // a loaded machine: once more, with a long deadline
                     rerun = true;
                     bad = exec(&mut ns, &hist, dec, ord ^ (1 << 39), LONG, &mut stats, which).await;
+                }
+                if let Some((doc, log, _task, n_written)) = &mut other_sub {
+                    *n_written += 1;
+                    set_clock(T0 + 1000 + *n_written);
+                    let wrote = doc.set_bytes(ns[0].author, format!("other{n_written}").into_bytes(), format!("other-{n_written}").into_bytes()).await;
+                    set_clock(NOW);
+                    let start = std::time::Instant::now();
+                    let mut seen;
+                    loop {
+                        seen = log.lock().unwrap().iter().filter(|e| matches!(e, iroh_docs::engine::LiveEvent::InsertLocal { .. })).count() as u64;
+                        if seen >= *n_written || start.elapsed() > Duration::from_secs(10) {
+                            break;
+                        }
+                        tokio::time::sleep(Duration::from_millis(5)).await;
+                    }
+                    if wrote.is_ok() && seen != *n_written {
+                        bad.push(("live_subscriber_of_another_document_unaffected", json!({"live": true, "nodes": n}), format!("a subscriber of a second document of node 0 (attached when the worker started) has seen {seen} of the {n_written} writes to that document; the last one came after this history had dropped its own document")));
+                        // count from what it has seen, so that the next history is judged on its own
+                        *n_written = seen;
+                    }
                 }
                 if let Some(b) = &bystander {
                     if let Some(d) = check_bystander(&ns, b).await {
